@@ -190,98 +190,6 @@ theorem urlNonEmpty_cons {u : Part} {us : List Part} (h : urlNonEmpty (u :: us) 
     u.seg ≠ .lit "" ∧ urlNonEmpty us = true := by
   simpa [urlNonEmpty] using h
 
-theorem stuck_value {fw : Option (Option V)} {params path u} {v : V}
-    (h : (stuck fw params path u).value = some v) : fw = some (some v) := by
-  unfold stuck at h
-  split at h
-  · simp [LookupResult.none] at h
-  · split at h
-    · simp at h; subst h; rfl
-    · simp [LookupResult.none] at h
-
-theorem lookGo_sound_lax (us : List Part) :
-    ∀ (res : Res V) (fw : Option (Option V)) (params : List (String × String)) (path : List Part) (v : V),
-    WildLast res → urlNonEmpty us = true →
-    (lookGo res fw params path us).value = some v →
-    (∃ q, (q, some v) ∈ res ∧ matchesLax q us = true) ∨ fw = some (some v) := by
-  induction us with
-  | nil =>
-    intro res fw params path v hwl _ h
-    unfold lookGo at h
-    split at h
-    · rename_i v' hv'
-      simp at h; subst h
-      exact .inl ⟨[], nodeValue_some hv', by simp [matchesLax, matchesG]⟩
-    · split at h
-      · rename_i wv hw
-        simp at h; subst h
-        obtain ⟨p, rest, hmem, hp⟩ := wildChild?_some hw
-        have := wildLast_wild_head (hwl _ hmem) hp
-        subst this
-        exact .inl ⟨[p], hmem, by simp [matchesLax, matchesG, hp]⟩
-      · split at h
-        · simp at h; subst h; exact .inr rfl
-        · simp [LookupResult.none] at h
-  | cons u us ih =>
-    intro res fw params path v hwl hne h
-    obtain ⟨hu, hne'⟩ := urlNonEmpty_cons hne
-    unfold lookGo at h
-    simp only at h
-    -- the fallback wildcard after this node
-    have hfw : ∀ {fw' : Option (Option V)},
-        fw' = (match wildChild? res with | some wv => some wv | none => fw) →
-        fw' = some (some v) →
-        (∃ q, (q, some v) ∈ res ∧ matchesLax q (u :: us) = true) ∨ fw = some (some v) := by
-      intro fw' hdef hfw'
-      cases hw : wildChild? res with
-      | none => rw [hw] at hdef; simp at hdef; subst hdef; exact .inr hfw'
-      | some wv =>
-        rw [hw] at hdef; simp at hdef; subst hdef
-        simp at hfw'; subst hfw'
-        obtain ⟨p, rest, hmem, hp⟩ := wildChild?_some hw
-        have := wildLast_wild_head (hwl _ hmem) hp
-        subst this
-        exact .inl ⟨[p], hmem, by simp [matchesLax, matchesG, hp]⟩
-    split at h
-    · -- constant child
-      rename_i s hvc
-      have hus : u.seg = .lit s ∧ constFlag? res s = some u.host := by
-        cases hs : u.seg with
-        | lit s' =>
-          rw [hs] at hvc; simp at hvc
-          obtain ⟨h1, h2⟩ := hvc
-          subst h2; exact ⟨rfl, h1⟩
-        | par n => rw [hs] at hvc; simp at hvc
-        | wild => rw [hs] at hvc; simp at hvc
-      rcases ih _ _ _ _ v (hwl.step _) hne' h with ⟨q, hq, hm⟩ | hfw'
-      · obtain ⟨p, hp, hk⟩ := mem_step.mp hq
-        refine .inl ⟨p :: q, hp, ?_⟩
-        cases hps : p.seg with
-        | lit s' =>
-          rw [hps] at hk; simp [Seg.key] at hk; subst hk
-          simp [matchesLax, matchesG, hps, segAccepts, hus.1]
-          exact hm
-        | par n => rw [hps] at hk; simp [Seg.key] at hk
-        | wild => rw [hps] at hk; simp [Seg.key] at hk
-      · exact hfw rfl hfw'
-    · split at h
-      · rename_i n hh hpc
-        split at h
-        · -- parametric child
-          rcases ih _ _ _ _ v (hwl.step _) hne' h with ⟨q, hq, hm⟩ | hfw'
-          · obtain ⟨p, hp, hk⟩ := mem_step.mp hq
-            refine .inl ⟨p :: q, hp, ?_⟩
-            cases hps : p.seg with
-            | par n' =>
-              simp [matchesLax, matchesG, hps, segAccepts, hu]
-              exact hm
-            | lit s' => rw [hps] at hk; simp [Seg.key] at hk
-            | wild => rw [hps] at hk; simp [Seg.key] at hk
-          · exact hfw rfl hfw'
-        · exact hfw rfl (stuck_value h)
-      · exact hfw rfl (stuck_value h)
-
-
 theorem matches_of_lax (q : Pattern) : ∀ (us : Url), matchesLax q us = true → flagsOK q us = true →
     «matches» q us = true := by
   induction q with
@@ -334,81 +242,6 @@ theorem lax_of_matches (q : Pattern) (us : Url) (h : «matches» q us = true) : 
         simp [«matches», matchesG, hs] at h
         simp [matchesLax, matchesG, hs, h.1.2]
         exact ih us' h.2
-
-
-/-- A returned value always belongs to an inserted entry (no hypothesis at all). -/
-theorem lookGo_value_mem (us : List Part) :
-    ∀ (res : Res V) (fw : Option (Option V)) (params : List (String × String)) (path : List Part) (v : V),
-    (lookGo res fw params path us).value = some v →
-    (∃ q, (q, some v) ∈ res) ∨ fw = some (some v) := by
-  induction us with
-  | nil =>
-    intro res fw params path v h
-    unfold lookGo at h
-    split at h
-    · rename_i v' hv'
-      simp at h; subst h
-      exact .inl ⟨[], nodeValue_some hv'⟩
-    · split at h
-      · rename_i wv hw
-        simp at h; subst h
-        obtain ⟨p, rest, hmem, _⟩ := wildChild?_some hw
-        exact .inl ⟨_, hmem⟩
-      · split at h
-        · simp at h; subst h; exact .inr rfl
-        · simp [LookupResult.none] at h
-  | cons u us ih =>
-    intro res fw params path v h
-    unfold lookGo at h
-    simp only at h
-    have hfw : ∀ {fw' : Option (Option V)},
-        fw' = (match wildChild? res with | some wv => some wv | none => fw) →
-        fw' = some (some v) → (∃ q, (q, some v) ∈ res) ∨ fw = some (some v) := by
-      intro fw' hdef hfw'
-      cases hw : wildChild? res with
-      | none => rw [hw] at hdef; simp at hdef; subst hdef; exact .inr hfw'
-      | some wv =>
-        rw [hw] at hdef; simp at hdef; subst hdef
-        simp at hfw'; subst hfw'
-        obtain ⟨p, rest, hmem, _⟩ := wildChild?_some hw
-        exact .inl ⟨_, hmem⟩
-    have lift : ∀ k, (∃ q, (q, some v) ∈ step k res) → ∃ q, (q, some v) ∈ res := by
-      rintro k ⟨q, hq⟩
-      obtain ⟨p, hp, _⟩ := mem_step.mp hq
-      exact ⟨_, hp⟩
-    split at h
-    · rcases ih _ _ _ _ v h with hq | hfw'
-      · exact .inl (lift _ hq)
-      · exact hfw rfl hfw'
-    · split at h
-      · split at h
-        · rcases ih _ _ _ _ v h with hq | hfw'
-          · exact .inl (lift _ hq)
-          · exact hfw rfl hfw'
-        · exact hfw rfl (stuck_value h)
-      · exact hfw rfl (stuck_value h)
-
-theorem lookupParts_value_mem (t : Tree V) (us : List Part) (v : V)
-    (h : (lookupParts t us).value = some v) : ∃ q, (q, some v) ∈ t := by
-  rcases lookGo_value_mem us t none [] [] v h with h | h
-  · exact h
-  · simp at h
-
-/-- Soundness of `Lookup`: a returned value belongs to an inserted pattern that (laxly) matches the URL. -/
-theorem lookupParts_sound_lax (t : Tree V) (us : List Part) (v : V)
-    (hwl : WildLast t) (hne : urlNonEmpty us = true) (h : (lookupParts t us).value = some v) :
-    ∃ q, (q, some v) ∈ t ∧ matchesLax q us = true := by
-  rcases lookGo_sound_lax us t none [] [] v hwl hne h with h | h
-  · exact h
-  · simp at h
-
-/-- ... and strictly, when no inserted pattern follows the URL across the host/path boundary. -/
-theorem lookupParts_sound (t : Tree V) (us : List Part) (v : V)
-    (hwl : WildLast t) (hne : urlNonEmpty us = true) (hfl : ∀ e ∈ t, flagsOK e.1 us = true)
-    (h : (lookupParts t us).value = some v) :
-    ∃ q, (q, some v) ∈ t ∧ «matches» q us = true := by
-  obtain ⟨q, hq, hm⟩ := lookupParts_sound_lax t us v hwl hne h
-  exact ⟨q, hq, matches_of_lax q us hm (hfl _ hq)⟩
 
 
 /-! ### insert -/
@@ -548,36 +381,6 @@ theorem insertParts_declared {t t' : Tree V} {ps : List Part} {v : V}
   rw [insGo_declared ps t eff he]
 
 
-theorem validateGo_none (last : Part) (ps : List Part) (h : validateGo last ps = none) :
-    ∀ p ∈ ps, p.seg ≠ .lit "" := by
-  induction ps with
-  | nil => simp
-  | cons p ps ih =>
-    unfold validateGo at h
-    split at h
-    · simp at h
-    · rename_i hp
-      split at h
-      · simp at h
-      · intro x hx
-        rcases List.mem_cons.mp hx with rfl | hx
-        · exact hp
-        · exact ih h x hx
-
-theorem validateParts_none {ps : List Part} (h : validateParts ps = none) : urlNonEmpty ps = true := by
-  unfold validateParts at h
-  unfold urlNonEmpty
-  rw [List.all_eq_true]
-  intro p hp
-  split at h
-  · rename_i l _
-    have := validateGo_none l ps h p hp
-    simpa using this
-  · rename_i hl
-    simp at hl
-    subst hl
-    simp at hp
-
 /-! ### hypotheses on a residual list relative to a URL, and their preservation along a step -/
 
 /-- No entry follows the URL across the host/path boundary. -/
@@ -662,18 +465,6 @@ theorem NamesOK.step {res : Res V} (h : NamesOK res) (k : Key) : NamesOK (step k
   simp [namesAgree, hk1, hk2] at this
   exact this.2
 
-/-- Under `Clean`, a node that has a wildcard child is never walked through. -/
-theorem Clean.no_follow {res : Res V} {u : Part} {us : Url} (h : Clean res (u :: us))
-    (hwl : WildLast res) {wv : Option V} (hw : wildChild? res = some wv)
-    {p : Part} {rest : List Part} {v : Option V} (hmem : (p :: rest, v) ∈ res)
-    (hs : trieStep p u) (hu : u.seg ≠ .lit "") : False := by
-  obtain ⟨w, wrest, hwm, hws⟩ := wildChild?_some hw
-  have := wildLast_wild_head (hwl _ hwm) hws
-  subst this
-  obtain ⟨_, h2⟩ := h _ hwm 0 (by simp [wildPos, hws])
-  have := h2 _ hmem
-  simp [followsPast, trieStep_accepts hs hu, trieStep_not_wild hs] at this
-
 /-- Parameter bindings the walk along pattern `q` adds (Go map assignments, in order). -/
 def bindParams : List (String × String) → Pattern → Url → List (String × String)
   | ps, p :: q, u :: us =>
@@ -681,156 +472,6 @@ def bindParams : List (String × String) → Pattern → Url → List (String ×
     | .par n => bindParams (if u.seg.isPar then ps else setParam n u.seg.text ps) q us
     | _ => bindParams ps q us
   | ps, _, _ => ps
-
-theorem stuck_match {fw : Option (Option V)} {params path u}
-    (h : (stuck fw params path u).isMatch = true) :
-    ∃ wv, fw = some wv ∧ stuck fw params path u = ⟨true, wv, params, path ++ [⟨u.host, .wild⟩]⟩ := by
-  unfold stuck at h ⊢
-  split at h
-  · simp [LookupResult.none] at h
-  · rename_i hp
-    cases fw with
-    | none => simp [LookupResult.none] at h
-    | some wv => exact ⟨wv, rfl, by simp [hp]⟩
-
-/-- Exact description of a successful lookup outside the displaced class: the selected entry, the
-    normalised URL (= the path walked so far followed by the selected pattern) and the parameters. -/
-theorem lookGo_exact (us : List Part) :
-    ∀ (res : Res V) (params : List (String × String)) (path : List Part),
-    WildLast res → NamesOK res → urlNonEmpty us = true → Aligned res us → Clean res us →
-    (lookGo res none params path us).isMatch = true →
-    ∃ q, (q, (lookGo res none params path us).value) ∈ res ∧ matchesLax q us = true ∧
-      (lookGo res none params path us).norm = path ++ q ∧
-      (lookGo res none params path us).params = bindParams params q us := by
-  induction us with
-  | nil =>
-    intro res params path hwl _ _ _ hcl h
-    unfold lookGo at h ⊢
-    split
-    · rename_i v hv
-      exact ⟨[], nodeValue_some hv, by simp [matchesLax, matchesG], by simp, by simp [bindParams]⟩
-    · rename_i hnv
-      rw [hnv] at h
-      simp only at h
-      split
-      · rename_i wv hw
-        obtain ⟨w, wrest, hwm, hws⟩ := wildChild?_some hw
-        have := wildLast_wild_head (hwl _ hwm) hws
-        subst this
-        have := (hcl _ hwm 0 (by simp [wildPos, hws])).1
-        simp at this
-      · rename_i hw
-        rw [hw] at h
-        simp [LookupResult.none] at h
-  | cons u us ih =>
-    intro res params path hwl hnm hne hal hcl h
-    obtain ⟨hu, hne'⟩ := urlNonEmpty_cons hne
-    unfold lookGo at h ⊢
-    simp only at h ⊢
-    split
-    · -- constant child
-      rename_i s hvc
-      rw [hvc] at h
-      simp only at h
-      have hus : u.seg = .lit s ∧ constFlag? res s = some u.host := by
-        cases hs : u.seg with
-        | lit s' =>
-          rw [hs] at hvc; simp at hvc
-          obtain ⟨h1, h2⟩ := hvc
-          subst h2; exact ⟨rfl, h1⟩
-        | par n => rw [hs] at hvc; simp at hvc
-        | wild => rw [hs] at hvc; simp at hvc
-      have hk : ∀ p : Part, p.seg.key = Key.lit s → trieStep p u := by
-        intro p hp
-        cases hps : p.seg with
-        | lit s' => rw [hps] at hp; simp [Seg.key] at hp; subst hp; exact .inl ⟨s', hps, hus.1⟩
-        | par n => rw [hps] at hp; simp [Seg.key] at hp
-        | wild => rw [hps] at hp; simp [Seg.key] at hp
-      have hnw : wildChild? res = none := by
-        cases hw : wildChild? res with
-        | none => rfl
-        | some wv =>
-          obtain ⟨p, rest, v, hmem, hp, _⟩ := constFlag?_some hus.2
-          exact (hcl.no_follow hwl hw hmem (.inl ⟨s, hp, hus.1⟩) hu).elim
-      simp only [hnw] at h ⊢
-      obtain ⟨q, hq, hm, hnorm, hpar⟩ := ih _ params (path ++ [u]) (hwl.step _) (hnm.step _) hne'
-        (hal.step hk) (hcl.step hu hk) h
-      obtain ⟨p, hp, hpk⟩ := mem_step.mp hq
-      have hps : p.seg = .lit s := by
-        rcases hk p hpk with ⟨s', h1, h2⟩ | hpar'
-        · rw [h1]; rw [hus.1] at h2; simp at h2; rw [h2]
-        · cases hps : p.seg with
-          | lit s' => rw [hps] at hpk; simp [Seg.key] at hpk; rw [hpk]
-          | par n => rw [hps] at hpk; simp [Seg.key] at hpk
-          | wild => rw [hps] at hpk; simp [Seg.key] at hpk
-      have hpu : p = u := by
-        have hh := hal.head hp (.inl (hk p hpk))
-        cases p; cases u; simp_all
-      refine ⟨p :: q, hp, ?_, ?_, ?_⟩
-      · simp [matchesLax, matchesG, hps, segAccepts, hus.1]; exact hm
-      · rw [hnorm, hpu]; simp
-      · rw [hpar]; simp [bindParams, hps]
-    · rename_i hvc
-      rw [hvc] at h
-      simp only at h
-      split
-      · rename_i n hh hpc
-        rw [hpc] at h
-        simp only at h
-        split
-        · -- parametric child
-          rename_i hhost
-          rw [if_pos hhost] at h
-          have hk : ∀ p : Part, p.seg.key = Key.par → trieStep p u := by
-            intro p hp
-            cases hps : p.seg with
-            | par n => exact .inr (by simp [hps, Seg.isPar])
-            | lit s' => rw [hps] at hp; simp [Seg.key] at hp
-            | wild => rw [hps] at hp; simp [Seg.key] at hp
-          obtain ⟨p0, rest0, v0, hmem0, hp0, _⟩ := parChild?_some hpc
-          have hnw : wildChild? res = none := by
-            cases hw : wildChild? res with
-            | none => rfl
-            | some wv => exact (hcl.no_follow hwl hw hmem0 (.inr (by simp [hp0, Seg.isPar])) hu).elim
-          simp only [hnw] at h ⊢
-          obtain ⟨q, hq, hm, hnorm, hpar⟩ := ih _ _ (path ++ [⟨u.host, .par n⟩]) (hwl.step _) (hnm.step _) hne'
-            (hal.step hk) (hcl.step hu hk) h
-          obtain ⟨p, hp, hpk⟩ := mem_step.mp hq
-          have hps : p.seg = .par n := by
-            have := hnm _ hp _ hmem0
-            have hkk : p.seg.key = p0.seg.key := by rw [hpk, hp0]; rfl
-            simp only [namesAgree, hkk, if_true, Bool.and_eq_true, decide_eq_true_eq] at this
-            rw [this.1, hp0]
-          have hpu : p = ⟨u.host, .par n⟩ := by
-            have hh := hal.head hp (.inl (hk p hpk))
-            cases p; simp_all
-          refine ⟨p :: q, hp, ?_, ?_, ?_⟩
-          · simp [matchesLax, matchesG, hps, segAccepts, hu]; exact hm
-          · rw [hnorm, hpu]; simp
-          · rw [hpar]; simp [bindParams, hps]
-        · -- parametric child on the other side of the host/path boundary: excluded by `Aligned`
-          rename_i hhost
-          obtain ⟨p0, rest0, v0, hmem0, hp0, hh0⟩ := parChild?_some hpc
-          have := hal.head hmem0 (.inl (.inr (by simp [hp0, Seg.isPar])))
-          rw [hh0] at this
-          exact absurd this hhost
-      · -- stuck: only a wildcard child of THIS node can answer
-        rename_i hpc
-        rw [hpc] at h
-        simp only at h
-        obtain ⟨wv, hfw, hst⟩ := stuck_match h
-        rw [hst]
-        cases hw : wildChild? res with
-        | none => rw [hw] at hfw; simp at hfw
-        | some wv' =>
-          rw [hw] at hfw; simp at hfw; subst hfw
-          obtain ⟨w, wrest, hwm, hws⟩ := wildChild?_some hw
-          have := wildLast_wild_head (hwl _ hwm) hws
-          subst this
-          have hwh := hal.head hwm (.inr hws)
-          refine ⟨[w], hwm, by simp [matchesLax, matchesG, hws], ?_, by simp [bindParams, hws]⟩
-          cases w; simp_all
-
 
 theorem setParam_mem {k v n x : String} {ps : List (String × String)} (h : (k, v) ∈ setParam n x ps) :
     (k = n ∧ v = x) ∨ (k, v) ∈ ps := by
@@ -1021,54 +662,6 @@ theorem insertParts_namesOK {t t' : Tree V} {ps : List Part} {v : V} {d : Bool}
   · simp at h1 h2; subst h1; subst h2; exact namesAgree_refl _
 
 
-theorem stuck_value_isMatch {fw : Option (Option V)} {params path u} {v : V}
-    (h : (stuck fw params path u).value = some v) : (stuck fw params path u).isMatch = true := by
-  unfold stuck at h ⊢
-  split
-  · rename_i hp; simp [hp, LookupResult.none] at h
-  · rename_i hp
-    cases fw with
-    | none => simp [hp, LookupResult.none] at h
-    | some wv => rfl
-
-theorem lookGo_value_isMatch (us : List Part) : ∀ (res : Res V) (fw : Option (Option V))
-    (params : List (String × String)) (path : List Part) (v : V),
-    (lookGo res fw params path us).value = some v → (lookGo res fw params path us).isMatch = true := by
-  induction us with
-  | nil =>
-    intro res fw params path v h
-    unfold lookGo at h ⊢
-    split
-    · rfl
-    · rename_i hnv
-      rw [hnv] at h; simp only at h
-      split
-      · rfl
-      · rename_i hw
-        rw [hw] at h; simp only at h
-        cases fw with
-        | some wv => rfl
-        | none => simp [LookupResult.none] at h
-  | cons u us ih =>
-    intro res fw params path v h
-    unfold lookGo at h ⊢
-    simp only at h ⊢
-    split
-    · rename_i s hvc
-      rw [hvc] at h
-      exact ih _ _ _ _ v h
-    · rename_i hvc
-      rw [hvc] at h; simp only at h
-      split
-      · rename_i n hh hpc
-        rw [hpc] at h; simp only at h
-        split
-        · rename_i hhost; rw [if_pos hhost] at h; exact ih _ _ _ _ v h
-        · rename_i hhost; rw [if_neg hhost] at h; exact stuck_value_isMatch h
-      · rename_i hpc
-        rw [hpc] at h; simp only at h
-        exact stuck_value_isMatch h
-
 theorem flagsOK_trunc (q : Pattern) : ∀ (us : Url), flagsOK (trunc q) us = flagsOK q us := by
   induction q with
   | nil => intro us; rfl
@@ -1113,195 +706,6 @@ theorem matchesLax_cons_inv {a : Part} {rest : Pattern} {u : Part} {us : Url}
   | lit s => right; simp [matchesLax, matchesG, hs] at h; simp [matchesLax, h]
   | par n => right; simp [matchesLax, matchesG, hs] at h; simp [matchesLax, h]
 
-/-- What the greedy, non-backtracking walk guarantees about the selected entry. -/
-theorem lookGo_most_specific (us : List Part) :
-    ∀ (res : Res V) (fw : Option (Option V)) (params : List (String × String)) (path : List Part),
-    WildLast res → urlNonEmpty us = true → Aligned res us →
-    (lookGo res fw params path us).isMatch = true →
-    (∃ q, (q, (lookGo res fw params path us).value) ∈ res ∧ matchesLax q us = true ∧
-      ∀ e ∈ res, e.2 ≠ none → matchesLax e.1 us = true →
-        specLE e.1 q = true ∨ passedOver q e.1 = true) ∨
-    fw = some (lookGo res fw params path us).value := by
-  induction us with
-  | nil =>
-    intro res fw params path hwl _ _ h
-    unfold lookGo at h ⊢
-    split
-    · rename_i v hv
-      left
-      refine ⟨[], nodeValue_some hv, by simp [matchesLax, matchesG], ?_⟩
-      intro ⟨q, ov⟩ _ _ hm
-      cases q with
-      | nil => left; rfl
-      | cons a rest => left; rfl
-    · rename_i hnv
-      split
-      · rename_i wv hw
-        left
-        obtain ⟨w, wrest, hwm, hws⟩ := wildChild?_some hw
-        have := wildLast_wild_head (hwl _ hwm) hws
-        subst this
-        refine ⟨[w], hwm, by simp [matchesLax, matchesG, hws], ?_⟩
-        intro ⟨q, ov⟩ hmem hov hm
-        cases q with
-        | nil => exact absurd (nodeValue_none hnv hmem) hov
-        | cons a rest =>
-          have hm' : matchesLax (a :: rest) [] = true := hm
-          cases has : a.seg with
-          | wild =>
-            have := wildLast_wild_head (hwl _ hmem) has
-            subst this
-            left; simp [specLE, has, hws]
-          | lit s => simp [matchesLax, matchesG, has] at hm'
-          | par n => simp [matchesLax, matchesG, has] at hm'
-      · rename_i hw
-        rw [hnv, hw] at h
-        simp only at h
-        cases fw with
-        | some wv => right; rfl
-        | none => simp [LookupResult.none] at h
-  | cons u us ih =>
-    intro res fw params path hwl hne hal h
-    obtain ⟨hu, hne'⟩ := urlNonEmpty_cons hne
-    -- entries with a literal head equal to the URL part force the constant branch
-    have hconst : ∀ (a : Part) (rest : List Part) (v : Option V) (s : String),
-        (a :: rest, v) ∈ res → a.seg = .lit s → u.seg = .lit s → constFlag? res s = some u.host := by
-      intro a rest v s hmem has hus
-      cases hc : constFlag? res s with
-      | none => exact absurd has (constFlag?_none hc hmem)
-      | some f =>
-        obtain ⟨p0, r0, v0, hm0, hp0, hf0⟩ := constFlag?_some hc
-        have := hal.head hm0 (.inl (.inl ⟨s, hp0, hus⟩))
-        rw [← hf0, this]
-    -- the answer is this node's wildcard child
-    have viaWild : ∀ (wv : Option V), wildChild? res = some wv →
-        (∀ e ∈ res, e.2 ≠ none → matchesLax e.1 (u :: us) = true →
-          ∀ a rest, e.1 = a :: rest → a.seg ≠ .wild → True) →
-        ∃ q, (q, wv) ∈ res ∧ matchesLax q (u :: us) = true ∧
-          ∀ e ∈ res, e.2 ≠ none → matchesLax e.1 (u :: us) = true →
-            specLE e.1 q = true ∨ passedOver q e.1 = true := by
-      intro wv hw _
-      obtain ⟨w, wrest, hwm, hws⟩ := wildChild?_some hw
-      have := wildLast_wild_head (hwl _ hwm) hws
-      subst this
-      refine ⟨[w], hwm, by simp [matchesLax, matchesG, hws], ?_⟩
-      intro ⟨q, ov⟩ hmem _ hm
-      cases q with
-      | nil => simp [matchesLax, matchesG] at hm
-      | cons a rest =>
-        by_cases has : a.seg = .wild
-        · have := wildLast_wild_head (hwl _ hmem) has
-          subst this
-          left; simp [specLE, has, hws]
-        · right; simp [passedOver, hws, has]
-    -- fallback bookkeeping shared by all branches
-    have hfw : ∀ (val : Option V),
-        (match wildChild? res with | some wv => some wv | none => fw) = some val →
-        (∃ q, (q, val) ∈ res ∧ matchesLax q (u :: us) = true ∧
-          ∀ e ∈ res, e.2 ≠ none → matchesLax e.1 (u :: us) = true →
-            specLE e.1 q = true ∨ passedOver q e.1 = true) ∨ fw = some val := by
-      intro val hval
-      cases hw : wildChild? res with
-      | none => rw [hw] at hval; exact .inr hval
-      | some wv =>
-        rw [hw] at hval
-        simp only [Option.some.injEq] at hval
-        subst hval
-        exact .inl (viaWild wv hw (fun _ _ _ _ _ _ _ _ => trivial))
-    unfold lookGo at h ⊢
-    simp only at h ⊢
-    split
-    · -- constant child
-      rename_i s hvc
-      rw [hvc] at h
-      simp only at h
-      have hus : u.seg = .lit s ∧ constFlag? res s = some u.host := by
-        cases hs : u.seg with
-        | lit s' =>
-          rw [hs] at hvc; simp at hvc
-          obtain ⟨h1, h2⟩ := hvc
-          subst h2; exact ⟨rfl, h1⟩
-        | par n => rw [hs] at hvc; simp at hvc
-        | wild => rw [hs] at hvc; simp at hvc
-      have hk : ∀ p : Part, p.seg.key = Key.lit s → trieStep p u := by
-        intro p hp
-        exact .inl ⟨s, key_eq_lit hp, hus.1⟩
-      rcases ih _ _ params (path ++ [u]) (hwl.step _) hne' (hal.step hk) h with ⟨q', hq', hm', hall⟩ | hr
-      · left
-        obtain ⟨p, hp, hpk⟩ := mem_step.mp hq'
-        have hps : p.seg = .lit s := key_eq_lit hpk
-        refine ⟨p :: q', hp, by simp [matchesLax, matchesG, hps, segAccepts, hus.1]; exact hm', ?_⟩
-        intro ⟨q, ov⟩ hmem hov hm
-        cases q with
-        | nil => simp [matchesLax, matchesG] at hm
-        | cons a rest =>
-          rcases matchesLax_cons_inv hm with ⟨haw, _⟩ | ⟨_, hacc, hmr⟩
-          · left; simp [specLE, haw, hps, Seg.rank]
-          · cases has : a.seg with
-            | wild => left; simp [specLE, has, hps, Seg.rank]
-            | par n => left; simp [specLE, has, hps, Seg.rank]
-            | lit s' =>
-              rw [has, hus.1] at hacc
-              simp [segAccepts] at hacc
-              subst hacc
-              have hak : a.seg.key = Key.lit s := by rw [has]; rfl
-              have := hall (rest, ov) (mem_step.mpr ⟨a, hmem, hak⟩) hov hmr
-              exact spec_lift (by rw [hak, hpk]) this
-      · exact hfw _ hr
-    · rename_i hvc
-      rw [hvc] at h
-      simp only at h
-      -- no entry has a literal head equal to the URL part
-      have hnolit : ∀ (a : Part) (rest : List Part) (v : Option V) (s : String),
-          (a :: rest, v) ∈ res → a.seg = .lit s → u.seg ≠ .lit s := by
-        intro a rest v s hmem has hus
-        have := hconst a rest v s hmem has hus
-        rw [hus] at hvc
-        simp [this] at hvc
-      split
-      · rename_i n hh hpc
-        rw [hpc] at h
-        simp only at h
-        obtain ⟨p0, rest0, v0, hmem0, hp0, hh0⟩ := parChild?_some hpc
-        have hhost : hh = u.host := by
-          have := hal.head hmem0 (.inl (.inr (by simp [hp0, Seg.isPar])))
-          rw [← hh0, this]
-        rw [if_pos hhost] at h ⊢
-        have hk : ∀ p : Part, p.seg.key = Key.par → trieStep p u := by
-          intro p hp
-          obtain ⟨n', hn'⟩ := key_eq_par hp
-          exact .inr (by simp [hn', Seg.isPar])
-        rcases ih _ _ _ (path ++ [⟨u.host, .par n⟩]) (hwl.step _) hne' (hal.step hk) h with ⟨q', hq', hm', hall⟩ | hr
-        · left
-          obtain ⟨p, hp, hpk⟩ := mem_step.mp hq'
-          obtain ⟨n', hps⟩ := key_eq_par hpk
-          refine ⟨p :: q', hp, by simp [matchesLax, matchesG, hps, segAccepts, hu]; exact hm', ?_⟩
-          intro ⟨q, ov⟩ hmem hov hm
-          cases q with
-          | nil => simp [matchesLax, matchesG] at hm
-          | cons a rest =>
-            rcases matchesLax_cons_inv hm with ⟨haw, _⟩ | ⟨_, hacc, hmr⟩
-            · left; simp [specLE, haw, hps, Seg.rank]
-            · cases has : a.seg with
-              | wild => left; simp [specLE, has, hps, Seg.rank]
-              | lit s' =>
-                rw [has] at hacc
-                simp [segAccepts] at hacc
-                exact absurd hacc (hnolit a rest ov s' hmem has)
-              | par m =>
-                have hak : a.seg.key = Key.par := by rw [has]; rfl
-                have := hall (rest, ov) (mem_step.mpr ⟨a, hmem, hak⟩) hov hmr
-                exact spec_lift (by rw [hak, hpk]) this
-        · exact hfw _ hr
-      · -- stuck
-        rename_i hpc
-        rw [hpc] at h
-        simp only at h
-        obtain ⟨wv, hfw', hst⟩ := stuck_match h
-        rw [hst]
-        exact hfw wv hfw'
-
-
 theorem wildLast_of_matchesLax (p : Pattern) : ∀ (us : Url), matchesLax p us = true → wildLast p = true := by
   induction p with
   | nil => intro _ _; rfl
@@ -1317,18 +721,6 @@ theorem wildLast_of_matchesLax (p : Pattern) : ∀ (us : Url), matchesLax p us =
       cases us with
       | nil => simp [matchesLax, matchesG, hs] at h
       | cons u us => simp [matchesLax, matchesG, hs] at h; simp [wildLast, hs]; exact ih us h.2
-
-/-- `Lookup`, most specific: the selected entry (laxly) matches, and every valued entry that matches is
-    at most as specific, or was passed over by the fallback to the selected `*`. -/
-theorem lookupParts_most_specific (t : Tree V) (us : List Part)
-    (hwl : WildLast t) (hne : urlNonEmpty us = true) (hal : Aligned t us)
-    (h : (lookupParts t us).isMatch = true) :
-    ∃ q, (q, (lookupParts t us).value) ∈ t ∧ matchesLax q us = true ∧
-      ∀ e ∈ t, e.2 ≠ none → matchesLax e.1 us = true →
-        specLE e.1 q = true ∨ passedOver q e.1 = true := by
-  rcases lookGo_most_specific us t none [] [] hwl hne hal h with h | h
-  · exact h
-  · simp at h
 
 /-! ### order independence of the lookup -/
 
@@ -1482,220 +874,6 @@ end queries
 def ResultSim (R : Option V → Option V' → Prop) (r : LookupResult V) (r' : LookupResult V') : Prop :=
   r.isMatch = r'.isMatch ∧ R r.value r'.value ∧ r.params = r'.params ∧ r.norm = r'.norm
 
-theorem stuck_sim {R : Option V → Option V' → Prop} (hR0 : R none none)
-    {fw : Option (Option V)} {fw' : Option (Option V')}
-    (hfw : (fw = none ∧ fw' = none) ∨ ∃ wv wv', fw = some wv ∧ fw' = some wv' ∧ R wv wv')
-    (params : List (String × String)) (path : List Part) (u : Part) :
-    ResultSim R (stuck fw params path u) (stuck fw' params path u) := by
-  unfold stuck
-  split
-  · exact ⟨rfl, hR0, rfl, rfl⟩
-  · rcases hfw with ⟨h1, h2⟩ | ⟨wv, wv', h1, h2, hr⟩
-    · subst h1; subst h2; exact ⟨rfl, hR0, rfl, rfl⟩
-    · subst h1; subst h2; exact ⟨rfl, hr, rfl, rfl⟩
-
-/-- The lookup depends on the inserted patterns only as a SET, provided entries on one trie path are equal
-    (`PartsOK`, `RCoh`) — values may differ between the two sides as long as they are `R`-related. -/
-theorem lookGo_sim {R : Option V → Option V' → Prop} (hR0 : R none none)
-    (hRsome : ∀ ov ov', R ov ov' → (ov = none ↔ ov' = none)) (us : List Part) :
-    ∀ (res : Res V) (res' : Res V') (fw : Option (Option V)) (fw' : Option (Option V'))
-      (params : List (String × String)) (path : List Part),
-    Sim R res res' → PartsOK res → WildLast res → RCoh res → RCoh res' →
-    ((fw = none ∧ fw' = none) ∨ ∃ wv wv', fw = some wv ∧ fw' = some wv' ∧ R wv wv') →
-    ResultSim R (lookGo res fw params path us) (lookGo res' fw' params path us) := by
-  induction us with
-  | nil =>
-    intro res res' fw fw' params path hs hp hwl hc hc' hfw
-    unfold lookGo
-    -- node values correspond
-    cases hn : nodeValue res with
-    | some v =>
-      have hm := nodeValue_some hn
-      obtain ⟨ov', hov', hr⟩ := hs.lr _ _ hm
-      cases ov' with
-      | none => have := (hRsome _ _ hr).mpr rfl; simp at this
-      | some v' =>
-        rw [nodeValue_eq_of_mem hc' hov']
-        exact ⟨rfl, hr, rfl, rfl⟩
-    | none =>
-      cases hn' : nodeValue res' with
-      | some v' =>
-        have hm' := nodeValue_some hn'
-        obtain ⟨ov, hov, hr⟩ := hs.rl _ _ hm'
-        cases ov with
-        | none => have := (hRsome _ _ hr).mp rfl; simp at this
-        | some v => rw [nodeValue_eq_of_mem hc hov] at hn; simp at hn
-      | none =>
-        simp only
-        rcases hs.wildChild hp hwl hc with ⟨h1, h2⟩ | ⟨wv, wv', h1, h2, hr⟩
-        · rw [h1, h2]
-          simp only
-          rcases hfw with ⟨h1, h2⟩ | ⟨wv, wv', h1, h2, hr⟩
-          · subst h1; subst h2; exact ⟨rfl, hR0, rfl, rfl⟩
-          · subst h1; subst h2; exact ⟨rfl, hr, rfl, rfl⟩
-        · rw [h1, h2]
-          exact ⟨rfl, hr, rfl, rfl⟩
-  | cons u us ih =>
-    intro res res' fw fw' params path hs hp hwl hc hc' hfw
-    unfold lookGo
-    simp only
-    have hfwn : ((match wildChild? res with | some wv => some wv | none => fw) = none ∧
-        (match wildChild? res' with | some wv => some wv | none => fw') = none) ∨
-        ∃ wv wv', (match wildChild? res with | some wv => some wv | none => fw) = some wv ∧
-          (match wildChild? res' with | some wv => some wv | none => fw') = some wv' ∧ R wv wv' := by
-      rcases hs.wildChild hp hwl hc with ⟨h1, h2⟩ | ⟨wv, wv', h1, h2, hr⟩
-      · rw [h1, h2]; exact hfw
-      · rw [h1, h2]; exact .inr ⟨wv, wv', rfl, rfl, hr⟩
-    have hp' : PartsOK res' := by
-      intro e1 h1 e2 h2
-      obtain ⟨_, ho1, _⟩ := hs.rl _ _ h1
-      obtain ⟨_, ho2, _⟩ := hs.rl _ _ h2
-      exact hp _ ho1 _ ho2
-    have hcf : ∀ s, constFlag? res s = constFlag? res' s := hs.constFlag hp
-    have hpar : ResultSim R
-        (match parChild? res with
-          | some (n, h) =>
-            if h = u.host then
-              lookGo (step Key.par res) (match wildChild? res with | some wv => some wv | none => fw)
-                (if u.seg.isPar = true then params else setParam n u.seg.text params)
-                (path ++ [{ host := u.host, seg := Seg.par n }]) us
-            else stuck (match wildChild? res with | some wv => some wv | none => fw) params path u
-          | none => stuck (match wildChild? res with | some wv => some wv | none => fw) params path u)
-        (match parChild? res' with
-          | some (n, h) =>
-            if h = u.host then
-              lookGo (step Key.par res') (match wildChild? res' with | some wv => some wv | none => fw')
-                (if u.seg.isPar = true then params else setParam n u.seg.text params)
-                (path ++ [{ host := u.host, seg := Seg.par n }]) us
-            else stuck (match wildChild? res' with | some wv => some wv | none => fw') params path u
-          | none => stuck (match wildChild? res' with | some wv => some wv | none => fw') params path u) := by
-      rw [← hs.parChild hp]
-      split
-      · rename_i n hh _
-        split
-        · exact ih _ _ _ _ _ _ (hs.step _) (hp.step _) (hwl.step _) (hc.step hp _) (hc'.step hp' _) hfwn
-        · exact stuck_sim hR0 hfwn params path u
-      · exact stuck_sim hR0 hfwn params path u
-    cases hseg : u.seg with
-    | lit s =>
-      simp only [hseg] at hpar ⊢
-      rw [← hcf s]
-      by_cases hcond : constFlag? res s = some u.host
-      · simp only [hcond, if_true]
-        exact ih _ _ _ _ params (path ++ [u]) (hs.step _) (hp.step _) (hwl.step _) (hc.step hp _)
-          (hc'.step hp' _) hfwn
-      · simp only [hcond, if_false]
-        exact hpar
-    | par n => simp only [hseg] at hpar ⊢; exact hpar
-    | wild => simp only [hseg] at hpar ⊢; exact hpar
-
-
-/-- Looking an inserted pattern up as if it were a URL finds that very pattern, provided no OTHER entry
-    (laxly) matches it and entries on one trie path are equal. -/
-theorem lookGo_self (rem : List Part) :
-    ∀ (res : Res V) (fw : Option (Option V)) (params : List (String × String)) (path : List Part) (j : V),
-    WildLast res → PartsOK res → RCoh res → (rem, some j) ∈ res →
-    (∀ e ∈ res, e.1 ≠ rem → matchesLax e.1 rem = false) →
-    (lookGo res fw params path rem).value = some j := by
-  induction rem with
-  | nil =>
-    intro res fw params path j _ _ hc hm _
-    unfold lookGo
-    rw [nodeValue_eq_of_mem hc hm]
-  | cons u rest ih =>
-    intro res fw params path j hwl hp hc hm hnc
-    -- stepping along the pattern's own first part keeps all hypotheses
-    have hstep : u.seg ≠ .wild → ∀ e ∈ step u.seg.key res, e.1 ≠ rest → matchesLax e.1 rest = false := by
-      intro hnw ⟨r', v'⟩ hm' hne
-      obtain ⟨p', hp', hk'⟩ := mem_step.mp hm'
-      have hpu : p' = u := hp.head_eq hp' hm hk'
-      subst hpu
-      have := hnc _ hp' (by simpa using hne)
-      cases hs : p'.seg with
-      | wild => exact absurd hs hnw
-      | lit s => simp [matchesLax, matchesG, hs, segAccepts] at this ⊢; exact this
-      | par n => simp [matchesLax, matchesG, hs, segAccepts] at this ⊢; exact this
-    have hmem' : (rest, some j) ∈ step u.seg.key res := mem_step.mpr ⟨u, hm, rfl⟩
-    unfold lookGo
-    simp only
-    cases hs : u.seg with
-    | lit s =>
-      have hcf : constFlag? res s = some u.host := by
-        cases hcf : constFlag? res s with
-        | none => exact absurd hs (constFlag?_none hcf hm)
-        | some f =>
-          obtain ⟨p0, r0, v0, hm0, hp0, hf0⟩ := constFlag?_some hcf
-          have := hp.head_eq hm0 hm (by rw [hp0, hs])
-          rw [← hf0, this]
-      simp only [hcf, if_true]
-      rw [hs] at hstep hmem'
-      exact ih _ _ _ _ j (hwl.step _) (hp.step _) (hc.step hp _) hmem' (hstep (by simp))
-    | par n =>
-      simp only
-      have hpc : parChild? res = some (n, u.host) := by
-        cases hpc : parChild? res with
-        | none => have := parChild?_none hpc hm; simp [hs, Seg.isPar] at this
-        | some nf =>
-          obtain ⟨n0, f0⟩ := nf
-          obtain ⟨p0, r0, v0, hm0, hp0, hf0⟩ := parChild?_some hpc
-          have := hp.head_eq hm0 hm (by rw [hp0, hs]; rfl)
-          subst this
-          rw [hs] at hp0
-          simp only [Seg.par.injEq] at hp0
-          rw [← hf0, hp0]
-      simp only [hpc, if_true]
-      rw [hs] at hstep hmem'
-      exact ih _ _ _ _ j (hwl.step _) (hp.step _) (hc.step hp _) hmem' (hstep (by simp))
-    | wild =>
-      simp only
-      have hrest : rest = [] := wildLast_wild_head (hwl _ hm) hs
-      subst hrest
-      have hw : wildChild? res = some (some j) := by
-        cases hw : wildChild? res with
-        | none => exact absurd hs (wildChild?_none hw hm)
-        | some wv =>
-          obtain ⟨p0, r0, hm0, hp0⟩ := wildChild?_some hw
-          have hpp := hp.head_eq hm0 hm (by rw [hp0, hs])
-          have hr0 := wildLast_wild_head (hwl _ hm0) hp0
-          subst hpp; subst hr0
-          have := hc _ hm0 _ hm rfl
-          simp only at this
-          rw [this]
-      simp only [hw]
-      have hst : (stuck (some (some j)) params path u).value = some j := by
-        simp [stuck, hs, Seg.isPar]
-      cases hpc : parChild? res with
-      | none => simp only; exact hst
-      | some nf =>
-        obtain ⟨n, h⟩ := nf
-        simp only
-        by_cases hh : h = u.host
-        · simp only [hh, if_true]
-          -- diverted into the parameter child with nothing left: that node answers nothing
-          unfold lookGo
-          have hnv : nodeValue (step Key.par res) = none := by
-            cases hnv : nodeValue (step Key.par res) with
-            | none => rfl
-            | some v =>
-              obtain ⟨p0, hm0, hk0⟩ := mem_step.mp (nodeValue_some hnv)
-              obtain ⟨m, hm'⟩ := key_eq_par hk0
-              have := hnc _ hm0 (by simp; intro h; rw [h, hs] at hm'; simp at hm')
-              simp [matchesLax, matchesG, hm', segAccepts, hs] at this
-          have hwc : wildChild? (step Key.par res) = none := by
-            cases hwc : wildChild? (step Key.par res) with
-            | none => rfl
-            | some wv =>
-              obtain ⟨w', r', hmw, hws⟩ := wildChild?_some hwc
-              have hr' := wildLast_wild_head ((hwl.step _) _ hmw) hws
-              subst hr'
-              obtain ⟨p0, hm0, hk0⟩ := mem_step.mp hmw
-              obtain ⟨m, hm'⟩ := key_eq_par hk0
-              have := hnc _ hm0 (by simp)
-              simp [matchesLax, matchesG, hm', segAccepts, hs, hws] at this
-          simp [hnv, hwc]
-        · simp only [hh, if_false]; exact hst
-
-
 /-- Host flags agree along the shared trie path. -/
 def hostsAgree : Pattern → Pattern → Bool
   | p :: ps, q :: qs => if p.seg.key = q.seg.key then p.host == q.host && hostsAgree ps qs else true
@@ -1753,6 +931,884 @@ theorem matchesLax_trunc_self (p : Pattern) : matchesLax (trunc p) p = true := b
     | wild => simp [trunc, has, matchesLax, matchesG]
     | lit s => simp [trunc, has, matchesLax, matchesG, segAccepts]; exact ih
     | par n => simp [trunc, has, matchesLax, matchesG, segAccepts]; exact ih
+
+
+/-! ### the repaired lookup (fixes F13b, F13c-wildcard, F13d, F13f) -/
+
+theorem wildNode?_some {res : Res V} {wv : Option V} {h : Bool} (hw : wildNode? res = some (wv, h)) :
+    ∃ p rest, (p :: rest, wv) ∈ res ∧ p.seg = .wild ∧ p.host = h := by
+  obtain ⟨⟨ps, v⟩, hmem, hc⟩ := lastSome?_some hw
+  unfold wildNodeHead at hc
+  cases ps with
+  | nil => simp at hc
+  | cons p rest =>
+    by_cases hp : p.seg = .wild
+    · simp [hp] at hc
+      obtain ⟨h1, h2⟩ := hc
+      subst h1
+      exact ⟨p, rest, hmem, hp, h2⟩
+    · simp [hp] at hc
+
+theorem wildNode?_none {res : Res V} (hw : wildNode? res = none)
+    {p : Part} {rest : List Part} {v : Option V} (hmem : (p :: rest, v) ∈ res) : p.seg ≠ .wild := by
+  have := lastSome?_none hw _ hmem
+  intro hp
+  simp [wildNodeHead, hp] at this
+
+theorem validateGo_none (ps : List Part) (h : validateGo ps = none) :
+    (∀ p ∈ ps, p.seg ≠ .lit "") ∧ wildLast ps = true := by
+  induction ps with
+  | nil => simp [wildLast]
+  | cons p ps ih =>
+    unfold validateGo at h
+    split at h
+    · simp at h
+    · rename_i hp
+      split at h
+      · simp at h
+      · rename_i hw
+        obtain ⟨h1, h2⟩ := ih h
+        refine ⟨?_, ?_⟩
+        · intro x hx
+          rcases List.mem_cons.mp hx with rfl | hx
+          · exact hp
+          · exact h1 x hx
+        · unfold wildLast
+          by_cases hpw : p.seg = .wild
+          · have : ps = [] := by
+              cases ps with
+              | nil => rfl
+              | cons a b => exact absurd ⟨hpw, by simp⟩ hw
+            simp [hpw, this]
+          · simp [hpw, h2]
+
+theorem validateParts_none {ps : List Part} (h : validateParts ps = none) : urlNonEmpty ps = true := by
+  unfold urlNonEmpty
+  rw [List.all_eq_true]
+  intro p hp
+  simpa using (validateGo_none ps h).1 p hp
+
+/-- A pattern `validateURL` accepts has `*` only as its last part. -/
+theorem validateParts_wildLast {ps : List Part} (h : validateParts ps = none) : wildLast ps = true :=
+  (validateGo_none ps h).2
+
+theorem stuck_value {fw : Option (Fallback V)} {u : Part} {v : V}
+    (h : (stuck fw u).value = some v) : ∃ f, fw = some f ∧ f.value = some v := by
+  unfold stuck at h
+  split at h
+  · simp [LookupResult.none] at h
+  · cases fw with
+    | none => simp [LookupResult.none] at h
+    | some f => exact ⟨f, rfl, by simpa using h⟩
+
+theorem stuck_match {fw : Option (Fallback V)} {u : Part} (h : (stuck fw u).isMatch = true) :
+    ∃ f, fw = some f ∧ stuck fw u = ⟨true, f.value, f.params, f.path⟩ := by
+  unfold stuck at h ⊢
+  split at h
+  · simp [LookupResult.none] at h
+  · rename_i hp
+    cases fw with
+    | none => simp [LookupResult.none] at h
+    | some f => exact ⟨f, rfl, by simp [hp]⟩
+
+theorem stuck_value_isMatch {fw : Option (Fallback V)} {u : Part} {v : V}
+    (h : (stuck fw u).value = some v) : (stuck fw u).isMatch = true := by
+  unfold stuck at h ⊢
+  split
+  · rename_i hp; simp [hp, LookupResult.none] at h
+  · rename_i hp
+    cases fw with
+    | none => simp [hp, LookupResult.none] at h
+    | some f => rfl
+
+/-- The fallback after a node, as `lookGo` computes it. -/
+def nextFw (res : Res V) (fw : Option (Fallback V)) (params : List (String × String)) (path : List Part)
+    (u : Part) : Option (Fallback V) :=
+  match wildNode? res with
+  | some (wv, h) => if h = u.host then some ⟨wv, params, path ++ [⟨u.host, .wild⟩]⟩ else fw
+  | none => fw
+
+/-- One iteration of `lookGo`, by cases (the branch conditions in a usable form). -/
+theorem lookGo_cons (res : Res V) (fw : Option (Fallback V)) (params : List (String × String))
+    (path : List Part) (u : Part) (us : List Part) :
+    (∃ s, u.seg = .lit s ∧ constFlag? res s = some u.host ∧
+      lookGo res fw params path (u :: us) =
+        lookGo (step (.lit s) res) (nextFw res fw params path u) params (path ++ [u]) us) ∨
+    ((∀ s, u.seg = .lit s → constFlag? res s ≠ some u.host) ∧
+      ((∃ n, parChild? res = some (n, u.host) ∧ u.seg ≠ .lit "" ∧
+          lookGo res fw params path (u :: us) =
+            lookGo (step .par res) (nextFw res fw params path u)
+              (if u.seg.isPar then params else setParam n u.seg.text params)
+              (path ++ [⟨u.host, .par n⟩]) us) ∨
+       ((∀ n, parChild? res = some (n, u.host) → u.seg = .lit "") ∧
+          lookGo res fw params path (u :: us) = stuck (nextFw res fw params path u) u))) := by
+  have hfw : (match wildNode? res with
+      | some (wv, h) => if h = u.host then some (⟨wv, params, path ++ [⟨u.host, .wild⟩]⟩ : Fallback V) else fw
+      | none => fw) = nextFw res fw params path u := rfl
+  cases hseg : u.seg with
+  | lit s =>
+    by_cases hc : constFlag? res s = some u.host
+    · left
+      refine ⟨s, rfl, hc, ?_⟩
+      conv => lhs; unfold lookGo
+      simp only [hseg, hc, if_true]
+      rfl
+    · right
+      refine ⟨fun s' hs' => by cases hs'; exact hc, ?_⟩
+      cases hpc : parChild? res with
+      | none =>
+        right
+        refine ⟨fun n hn => by simp at hn, ?_⟩
+        conv => lhs; unfold lookGo
+        simp only [hseg, hc, if_false, hpc]
+        rfl
+      | some nf =>
+        obtain ⟨n, h⟩ := nf
+        by_cases hh : h = u.host ∧ u.seg ≠ .lit ""
+        · left
+          refine ⟨n, by rw [hh.1], by rw [← hseg]; exact hh.2, ?_⟩
+          conv => lhs; unfold lookGo
+          simp only [hseg, hc, if_false, hpc]
+          rw [hseg] at hh
+          have hh1 := hh.1
+          subst hh1
+          rw [if_pos ⟨rfl, hh.2⟩]
+          rfl
+        · right
+          refine ⟨?_, ?_⟩
+          · intro n' hn'
+            simp only [Option.some.injEq, Prod.mk.injEq] at hn'
+            rw [← hseg]
+            by_cases hl : u.seg = .lit ""
+            · exact hl
+            · exact absurd ⟨hn'.2, hl⟩ hh
+          · conv => lhs; unfold lookGo
+            simp only [hseg, hc, if_false, hpc]
+            rw [hseg] at hh
+            simp only [hh, if_false]
+            rfl
+  | par m =>
+    right
+    refine ⟨fun s' hs' => by simp at hs', ?_⟩
+    cases hpc : parChild? res with
+    | none =>
+      right
+      refine ⟨fun n hn => by simp at hn, ?_⟩
+      conv => lhs; unfold lookGo
+      simp only [hseg, hpc]
+      rfl
+    | some nf =>
+      obtain ⟨n, h⟩ := nf
+      by_cases hh : h = u.host
+      · left
+        refine ⟨n, by rw [hh], by simp, ?_⟩
+        conv => lhs; unfold lookGo
+        simp only [hseg, hpc, hh]
+        simp
+        rfl
+      · right
+        refine ⟨fun n' hn' => by simp at hn'; exact absurd hn'.2 hh, ?_⟩
+        conv => lhs; unfold lookGo
+        simp only [hseg, hpc]
+        simp [hh]
+        rfl
+  | wild =>
+    right
+    refine ⟨fun s' hs' => by simp at hs', ?_⟩
+    cases hpc : parChild? res with
+    | none =>
+      right
+      refine ⟨fun n hn => by simp at hn, ?_⟩
+      conv => lhs; unfold lookGo
+      simp only [hseg, hpc]
+      rfl
+    | some nf =>
+      obtain ⟨n, h⟩ := nf
+      by_cases hh : h = u.host
+      · left
+        refine ⟨n, by rw [hh], by simp, ?_⟩
+        conv => lhs; unfold lookGo
+        simp only [hseg, hpc, hh]
+        simp
+        rfl
+      · right
+        refine ⟨fun n' hn' => by simp at hn'; exact absurd hn'.2 hh, ?_⟩
+        conv => lhs; unfold lookGo
+        simp only [hseg, hpc]
+        simp [hh]
+        rfl
+
+/-- The end of the URL, by cases. -/
+theorem lookGo_nil (res : Res V) (fw : Option (Fallback V)) (params : List (String × String)) (path : List Part) :
+    (∃ v, nodeValue res = some v ∧ lookGo res fw params path [] = ⟨true, some v, params, path⟩) ∨
+    (nodeValue res = none ∧
+      ((∃ wv h, wildNode? res = some (wv, h) ∧
+          lookGo res fw params path [] = ⟨true, wv, params, path ++ [⟨h, .wild⟩]⟩) ∨
+       (wildNode? res = none ∧
+          ((∃ f, fw = some f ∧ lookGo res fw params path [] = ⟨true, f.value, f.params, f.path⟩) ∨
+           (fw = none ∧ lookGo res fw params path [] = .none))))) := by
+  unfold lookGo
+  cases hn : nodeValue res with
+  | some v => exact .inl ⟨v, rfl, rfl⟩
+  | none =>
+    right
+    refine ⟨rfl, ?_⟩
+    cases hw : wildNode? res with
+    | some wh => obtain ⟨wv, h⟩ := wh; exact .inl ⟨wv, h, rfl, rfl⟩
+    | none =>
+      right
+      refine ⟨rfl, ?_⟩
+      cases fw with
+      | some f => exact .inl ⟨f, rfl, rfl⟩
+      | none => exact .inr ⟨rfl, rfl⟩
+
+
+theorem nextFw_cases (res : Res V) (fw : Option (Fallback V)) (params : List (String × String))
+    (path : List Part) (u : Part) :
+    nextFw res fw params path u = fw ∨
+    ∃ wv, wildNode? res = some (wv, u.host) ∧
+      nextFw res fw params path u = some ⟨wv, params, path ++ [⟨u.host, .wild⟩]⟩ := by
+  unfold nextFw
+  cases hw : wildNode? res with
+  | none => exact .inl rfl
+  | some wh =>
+    obtain ⟨wv, h⟩ := wh
+    by_cases hh : h = u.host
+    · subst hh; exact .inr ⟨wv, rfl, by simp⟩
+    · exact .inl (by simp [hh])
+
+/-- the wildcard child of this node as an entry -/
+theorem wildNode_entry {res : Res V} (hwl : WildLast res) {wv : Option V} {h : Bool}
+    (hw : wildNode? res = some (wv, h)) : ∃ w, ([w], wv) ∈ res ∧ w.seg = .wild ∧ w.host = h := by
+  obtain ⟨p, rest, hmem, hp, hh⟩ := wildNode?_some hw
+  have := wildLast_wild_head (hwl _ hmem) hp
+  subst this
+  exact ⟨p, hmem, hp, hh⟩
+
+theorem lookGo_sound_lax (us : List Part) :
+    ∀ (res : Res V) (fw : Option (Fallback V)) (params : List (String × String)) (path : List Part) (v : V),
+    WildLast res → (lookGo res fw params path us).value = some v →
+    (∃ q, (q, some v) ∈ res ∧ matchesLax q us = true) ∨ (∃ f, fw = some f ∧ f.value = some v) := by
+  induction us with
+  | nil =>
+    intro res fw params path v hwl h
+    rcases lookGo_nil res fw params path with ⟨v', hn, heq⟩ | ⟨_, ⟨wv, hh, hw, heq⟩ | ⟨_, ⟨f, hf, heq⟩ | ⟨_, heq⟩⟩⟩
+    · rw [heq] at h; simp at h; subst h
+      exact .inl ⟨[], nodeValue_some hn, by simp [matchesLax, matchesG]⟩
+    · rw [heq] at h; simp at h; subst h
+      obtain ⟨w, hm, hws, _⟩ := wildNode_entry hwl hw
+      exact .inl ⟨[w], hm, by simp [matchesLax, matchesG, hws]⟩
+    · rw [heq] at h; exact .inr ⟨f, hf, by simpa using h⟩
+    · rw [heq] at h; simp [LookupResult.none] at h
+  | cons u us ih =>
+    intro res fw params path v hwl h
+    have hfw : (∃ f, nextFw res fw params path u = some f ∧ f.value = some v) →
+        (∃ q, (q, some v) ∈ res ∧ matchesLax q (u :: us) = true) ∨ (∃ f, fw = some f ∧ f.value = some v) := by
+      rintro ⟨f, hf, hv⟩
+      rcases nextFw_cases res fw params path u with he | ⟨wv, hw, he⟩
+      · rw [he] at hf; exact .inr ⟨f, hf, hv⟩
+      · rw [he] at hf; simp at hf; subst hf
+        simp at hv; subst hv
+        obtain ⟨w, hm, hws, _⟩ := wildNode_entry hwl hw
+        exact .inl ⟨[w], hm, by simp [matchesLax, matchesG, hws]⟩
+    rcases lookGo_cons res fw params path u us with ⟨s, hs, hc, heq⟩ | ⟨_, ⟨n, hpc, hne, heq⟩ | ⟨_, heq⟩⟩
+    · rw [heq] at h
+      rcases ih _ _ _ _ v (hwl.step _) h with ⟨q, hq, hm⟩ | hr
+      · obtain ⟨p, hp, hk⟩ := mem_step.mp hq
+        refine .inl ⟨p :: q, hp, ?_⟩
+        simp [matchesLax, matchesG, key_eq_lit hk, segAccepts, hs]; exact hm
+      · exact hfw hr
+    · rw [heq] at h
+      rcases ih _ _ _ _ v (hwl.step _) h with ⟨q, hq, hm⟩ | hr
+      · obtain ⟨p, hp, hk⟩ := mem_step.mp hq
+        obtain ⟨n', hn'⟩ := key_eq_par hk
+        refine .inl ⟨p :: q, hp, ?_⟩
+        simp [matchesLax, matchesG, hn', segAccepts, hne]; exact hm
+      · exact hfw hr
+    · rw [heq] at h
+      exact hfw (stuck_value h)
+
+theorem lookGo_value_mem (us : List Part) :
+    ∀ (res : Res V) (fw : Option (Fallback V)) (params : List (String × String)) (path : List Part) (v : V),
+    (lookGo res fw params path us).value = some v →
+    (∃ q, (q, some v) ∈ res) ∨ (∃ f, fw = some f ∧ f.value = some v) := by
+  induction us with
+  | nil =>
+    intro res fw params path v h
+    rcases lookGo_nil res fw params path with ⟨v', hn, heq⟩ | ⟨_, ⟨wv, hh, hw, heq⟩ | ⟨_, ⟨f, hf, heq⟩ | ⟨_, heq⟩⟩⟩
+    · rw [heq] at h; simp at h; subst h; exact .inl ⟨[], nodeValue_some hn⟩
+    · rw [heq] at h; simp at h; subst h
+      obtain ⟨p, rest, hm, _, _⟩ := wildNode?_some hw
+      exact .inl ⟨_, hm⟩
+    · rw [heq] at h; exact .inr ⟨f, hf, by simpa using h⟩
+    · rw [heq] at h; simp [LookupResult.none] at h
+  | cons u us ih =>
+    intro res fw params path v h
+    have hfw : (∃ f, nextFw res fw params path u = some f ∧ f.value = some v) →
+        (∃ q, (q, some v) ∈ res) ∨ (∃ f, fw = some f ∧ f.value = some v) := by
+      rintro ⟨f, hf, hv⟩
+      rcases nextFw_cases res fw params path u with he | ⟨wv, hw, he⟩
+      · rw [he] at hf; exact .inr ⟨f, hf, hv⟩
+      · rw [he] at hf; simp at hf; subst hf
+        simp at hv; subst hv
+        obtain ⟨p, rest, hm, _, _⟩ := wildNode?_some hw
+        exact .inl ⟨_, hm⟩
+    have lift : ∀ k, (∃ q, (q, some v) ∈ step k res) → ∃ q, (q, some v) ∈ res := by
+      rintro k ⟨q, hq⟩
+      obtain ⟨p, hp, _⟩ := mem_step.mp hq
+      exact ⟨_, hp⟩
+    rcases lookGo_cons res fw params path u us with ⟨s, hs, hc, heq⟩ | ⟨_, ⟨n, hpc, hne, heq⟩ | ⟨_, heq⟩⟩
+    · rw [heq] at h
+      rcases ih _ _ _ _ v h with hq | hr
+      · exact .inl (lift _ hq)
+      · exact hfw hr
+    · rw [heq] at h
+      rcases ih _ _ _ _ v h with hq | hr
+      · exact .inl (lift _ hq)
+      · exact hfw hr
+    · rw [heq] at h; exact hfw (stuck_value h)
+
+theorem lookupParts_value_mem (t : Tree V) (us : List Part) (v : V)
+    (h : (lookupParts t us).value = some v) : ∃ q, (q, some v) ∈ t := by
+  rcases lookGo_value_mem us t none [] [] v h with h | ⟨f, hf, _⟩
+  · exact h
+  · simp at hf
+
+/-- Soundness of `Lookup` (repaired trie: no hypothesis on empty segments any more): a returned value belongs
+    to an inserted pattern that (laxly) matches the URL. -/
+theorem lookupParts_sound_lax' (t : Tree V) (us : List Part) (v : V)
+    (hwl : WildLast t) (h : (lookupParts t us).value = some v) :
+    ∃ q, (q, some v) ∈ t ∧ matchesLax q us = true := by
+  rcases lookGo_sound_lax us t none [] [] v hwl h with h | ⟨f, hf, _⟩
+  · exact h
+  · simp at hf
+
+/-- Same statement with the signature it had before the repair (`_hne` is no longer needed). -/
+theorem lookupParts_sound_lax (t : Tree V) (us : List Part) (v : V)
+    (hwl : WildLast t) (_hne : urlNonEmpty us = true) (h : (lookupParts t us).value = some v) :
+    ∃ q, (q, some v) ∈ t ∧ matchesLax q us = true := lookupParts_sound_lax' t us v hwl h
+
+/-- ... and strictly, when no inserted pattern follows the URL across the host/path boundary. -/
+theorem lookupParts_sound (t : Tree V) (us : List Part) (v : V)
+    (hwl : WildLast t) (_hne : urlNonEmpty us = true) (hfl : ∀ e ∈ t, flagsOK e.1 us = true)
+    (h : (lookupParts t us).value = some v) :
+    ∃ q, (q, some v) ∈ t ∧ «matches» q us = true := by
+  obtain ⟨q, hq, hm⟩ := lookupParts_sound_lax' t us v hwl h
+  exact ⟨q, hq, matches_of_lax q us hm (hfl _ hq)⟩
+
+theorem lookGo_value_isMatch (us : List Part) : ∀ (res : Res V) (fw : Option (Fallback V))
+    (params : List (String × String)) (path : List Part) (v : V),
+    (lookGo res fw params path us).value = some v → (lookGo res fw params path us).isMatch = true := by
+  induction us with
+  | nil =>
+    intro res fw params path v h
+    rcases lookGo_nil res fw params path with ⟨v', hn, heq⟩ | ⟨_, ⟨wv, hh, hw, heq⟩ | ⟨_, ⟨f, hf, heq⟩ | ⟨_, heq⟩⟩⟩
+    · rw [heq]
+    · rw [heq]
+    · rw [heq]
+    · rw [heq] at h; simp [LookupResult.none] at h
+  | cons u us ih =>
+    intro res fw params path v h
+    rcases lookGo_cons res fw params path u us with ⟨s, hs, hc, heq⟩ | ⟨_, ⟨n, hpc, hne, heq⟩ | ⟨_, heq⟩⟩
+    · rw [heq] at h ⊢; exact ih _ _ _ _ v h
+    · rw [heq] at h ⊢; exact ih _ _ _ _ v h
+    · rw [heq] at h ⊢; exact stuck_value_isMatch h
+
+
+theorem trieStep_lit {p u : Part} {s : String} (hk : p.seg.key = Key.lit s) (hu : u.seg = .lit s) :
+    trieStep p u := .inl ⟨s, key_eq_lit hk, hu⟩
+
+theorem trieStep_par {p u : Part} (hk : p.seg.key = Key.par) : trieStep p u := by
+  obtain ⟨n, hn⟩ := key_eq_par hk
+  exact .inr (by simp [hn, Seg.isPar])
+
+/-- Exact description of a successful lookup in the repaired trie (no displaced class any more): the
+    selected entry, the normalised URL (= the path walked to the node of the selected entry, followed by the
+    selected pattern) and the parameters collected along it. -/
+theorem lookGo_exact (us : List Part) :
+    ∀ (res : Res V) (fw : Option (Fallback V)) (params : List (String × String)) (path : List Part),
+    WildLast res → NamesOK res → Aligned res us →
+    (lookGo res fw params path us).isMatch = true →
+    (∃ q, (q, (lookGo res fw params path us).value) ∈ res ∧ matchesLax q us = true ∧
+      (lookGo res fw params path us).norm = path ++ q ∧
+      (lookGo res fw params path us).params = bindParams params q us) ∨
+    (∃ f, fw = some f ∧ (lookGo res fw params path us).value = f.value ∧
+      (lookGo res fw params path us).norm = f.path ∧ (lookGo res fw params path us).params = f.params) := by
+  induction us with
+  | nil =>
+    intro res fw params path hwl _ _ h
+    rcases lookGo_nil res fw params path with ⟨v', hn, heq⟩ | ⟨_, ⟨wv, hh, hw, heq⟩ | ⟨_, ⟨f, hf, heq⟩ | ⟨_, heq⟩⟩⟩
+    · rw [heq]
+      exact .inl ⟨[], nodeValue_some hn, by simp [matchesLax, matchesG], by simp, by simp [bindParams]⟩
+    · rw [heq]
+      obtain ⟨w, hm, hws, hwh⟩ := wildNode_entry hwl hw
+      refine .inl ⟨[w], hm, by simp [matchesLax, matchesG, hws], ?_, by simp [bindParams]⟩
+      cases w; simp_all
+    · rw [heq]; exact .inr ⟨f, hf, rfl, rfl, rfl⟩
+    · rw [heq] at h; simp [LookupResult.none] at h
+  | cons u us ih =>
+    intro res fw params path hwl hnm hal h
+    -- what a fallback to `nextFw` means at this node
+    have hfw : ∀ (r : LookupResult V), (∃ f, nextFw res fw params path u = some f ∧ r.value = f.value ∧
+          r.norm = f.path ∧ r.params = f.params) →
+        (∃ q, (q, r.value) ∈ res ∧ matchesLax q (u :: us) = true ∧ r.norm = path ++ q ∧
+          r.params = bindParams params q (u :: us)) ∨
+        (∃ f, fw = some f ∧ r.value = f.value ∧ r.norm = f.path ∧ r.params = f.params) := by
+      rintro r ⟨f, hf, hv, hn, hp⟩
+      rcases nextFw_cases res fw params path u with he | ⟨wv, hw, he⟩
+      · rw [he] at hf; exact .inr ⟨f, hf, hv, hn, hp⟩
+      · rw [he] at hf; simp at hf; subst hf
+        obtain ⟨w, hm, hws, hwh⟩ := wildNode_entry hwl hw
+        refine .inl ⟨[w], by rw [hv]; exact hm, by simp [matchesLax, matchesG, hws], ?_, ?_⟩
+        · rw [hn]; cases w; simp_all
+        · rw [hp]; simp [bindParams, hws]
+    rcases lookGo_cons res fw params path u us with ⟨s, hs, hc, heq⟩ | ⟨_, ⟨n, hpc, hne, heq⟩ | ⟨_, heq⟩⟩
+    · rw [heq] at h ⊢
+      have hk : ∀ p : Part, p.seg.key = Key.lit s → trieStep p u := fun p hp => trieStep_lit hp hs
+      rcases ih _ _ params (path ++ [u]) (hwl.step _) (hnm.step _) (hal.step hk) h with ⟨q, hq, hm, hnorm, hpar⟩ | hr
+      · obtain ⟨p, hp, hpk⟩ := mem_step.mp hq
+        have hps : p.seg = .lit s := key_eq_lit hpk
+        have hpu : p = u := by
+          have hh := hal.head hp (.inl (hk p hpk))
+          cases p; cases u; simp_all
+        refine .inl ⟨p :: q, hp, ?_, ?_, ?_⟩
+        · simp [matchesLax, matchesG, hps, segAccepts, hs]; exact hm
+        · rw [hnorm, hpu]; simp
+        · rw [hpar]; simp [bindParams, hps]
+      · exact hfw _ hr
+    · rw [heq] at h ⊢
+      have hk : ∀ p : Part, p.seg.key = Key.par → trieStep p u := fun p hp => trieStep_par hp
+      rcases ih _ _ _ (path ++ [⟨u.host, .par n⟩]) (hwl.step _) (hnm.step _) (hal.step hk) h with ⟨q, hq, hm, hnorm, hpar⟩ | hr
+      · obtain ⟨p, hp, hpk⟩ := mem_step.mp hq
+        have hps : p.seg = .par n := hnm.par_name hpc hp hpk
+        have hpu : p = ⟨u.host, .par n⟩ := by
+          have hh := hal.head hp (.inl (hk p hpk))
+          cases p; simp_all
+        refine .inl ⟨p :: q, hp, ?_, ?_, ?_⟩
+        · simp [matchesLax, matchesG, hps, segAccepts, hne]; exact hm
+        · rw [hnorm, hpu]; simp
+        · rw [hpar]; simp [bindParams, hps]
+      · exact hfw _ hr
+    · rw [heq] at h ⊢
+      obtain ⟨f, hf, hst⟩ := stuck_match h
+      rw [hst]
+      exact hfw _ ⟨f, hf, rfl, rfl, rfl⟩
+
+/-- What the greedy, non-backtracking walk guarantees about the selected entry (repaired trie). -/
+theorem lookGo_most_specific (us : List Part) :
+    ∀ (res : Res V) (fw : Option (Fallback V)) (params : List (String × String)) (path : List Part),
+    WildLast res → Aligned res us →
+    (lookGo res fw params path us).isMatch = true →
+    (∃ q, (q, (lookGo res fw params path us).value) ∈ res ∧ matchesLax q us = true ∧
+      ∀ e ∈ res, e.2 ≠ none → matchesLax e.1 us = true →
+        specLE e.1 q = true ∨ passedOver q e.1 = true) ∨
+    (∃ f, fw = some f ∧ (lookGo res fw params path us).value = f.value) := by
+  induction us with
+  | nil =>
+    intro res fw params path hwl _ h
+    rcases lookGo_nil res fw params path with ⟨v', hn, heq⟩ | ⟨hnv, ⟨wv, hh, hw, heq⟩ | ⟨_, ⟨f, hf, heq⟩ | ⟨_, heq⟩⟩⟩
+    · rw [heq]
+      refine .inl ⟨[], nodeValue_some hn, by simp [matchesLax, matchesG], ?_⟩
+      intro ⟨q, ov⟩ _ _ _
+      cases q <;> exact .inl rfl
+    · rw [heq]
+      obtain ⟨w, hwm, hws, _⟩ := wildNode_entry hwl hw
+      refine .inl ⟨[w], hwm, by simp [matchesLax, matchesG, hws], ?_⟩
+      intro ⟨q, ov⟩ hmem hov hm
+      cases q with
+      | nil => exact absurd (nodeValue_none hnv hmem) hov
+      | cons a rest =>
+        have hm' : matchesLax (a :: rest) [] = true := hm
+        cases has : a.seg with
+        | wild =>
+          have := wildLast_wild_head (hwl _ hmem) has
+          subst this
+          left; simp [specLE, has, hws]
+        | lit s => simp [matchesLax, matchesG, has] at hm'
+        | par n => simp [matchesLax, matchesG, has] at hm'
+    · rw [heq]; exact .inr ⟨f, hf, rfl⟩
+    · rw [heq] at h; simp [LookupResult.none] at h
+  | cons u us ih =>
+    intro res fw params path hwl hal h
+    have hconst : ∀ (a : Part) (rest : List Part) (v : Option V) (s : String),
+        (a :: rest, v) ∈ res → a.seg = .lit s → u.seg = .lit s → constFlag? res s = some u.host := by
+      intro a rest v s hmem has hus
+      cases hc : constFlag? res s with
+      | none => exact absurd has (constFlag?_none hc hmem)
+      | some f =>
+        obtain ⟨p0, r0, v0, hm0, hp0, hf0⟩ := constFlag?_some hc
+        have := hal.head hm0 (.inl (.inl ⟨s, hp0, hus⟩))
+        rw [← hf0, this]
+    -- the answer is this node's wildcard child
+    have viaWild : ∀ (wv : Option V) (h : Bool), wildNode? res = some (wv, h) →
+        ∃ q, (q, wv) ∈ res ∧ matchesLax q (u :: us) = true ∧
+          ∀ e ∈ res, e.2 ≠ none → matchesLax e.1 (u :: us) = true →
+            specLE e.1 q = true ∨ passedOver q e.1 = true := by
+      intro wv h hw
+      obtain ⟨w, hwm, hws, _⟩ := wildNode_entry hwl hw
+      refine ⟨[w], hwm, by simp [matchesLax, matchesG, hws], ?_⟩
+      intro ⟨q, ov⟩ hmem _ hm
+      cases q with
+      | nil => simp [matchesLax, matchesG] at hm
+      | cons a rest =>
+        by_cases has : a.seg = .wild
+        · have := wildLast_wild_head (hwl _ hmem) has
+          subst this
+          left; simp [specLE, has, hws]
+        · right; simp [passedOver, hws, has]
+    have hfw : ∀ (val : Option V), (∃ f, nextFw res fw params path u = some f ∧ val = f.value) →
+        (∃ q, (q, val) ∈ res ∧ matchesLax q (u :: us) = true ∧
+          ∀ e ∈ res, e.2 ≠ none → matchesLax e.1 (u :: us) = true →
+            specLE e.1 q = true ∨ passedOver q e.1 = true) ∨ (∃ f, fw = some f ∧ val = f.value) := by
+      rintro val ⟨f, hf, hv⟩
+      rcases nextFw_cases res fw params path u with he | ⟨wv, hw, he⟩
+      · rw [he] at hf; exact .inr ⟨f, hf, hv⟩
+      · rw [he] at hf; simp at hf; subst hf
+        simp at hv; subst hv
+        exact .inl (viaWild _ _ hw)
+    rcases lookGo_cons res fw params path u us with ⟨s, hs, hc, heq⟩ | ⟨hnc, ⟨n, hpc, hne2, heq⟩ | ⟨_, heq⟩⟩
+    · rw [heq] at h ⊢
+      have hk : ∀ p : Part, p.seg.key = Key.lit s → trieStep p u := fun p hp => trieStep_lit hp hs
+      rcases ih _ _ params (path ++ [u]) (hwl.step _) (hal.step hk) h with ⟨q', hq', hm', hall⟩ | hr
+      · left
+        obtain ⟨p, hp, hpk⟩ := mem_step.mp hq'
+        have hps : p.seg = .lit s := key_eq_lit hpk
+        refine ⟨p :: q', hp, by simp [matchesLax, matchesG, hps, segAccepts, hs]; exact hm', ?_⟩
+        intro ⟨q, ov⟩ hmem hov hm
+        cases q with
+        | nil => simp [matchesLax, matchesG] at hm
+        | cons a rest =>
+          rcases matchesLax_cons_inv hm with ⟨haw, _⟩ | ⟨_, hacc, hmr⟩
+          · left; simp [specLE, haw, hps, Seg.rank]
+          · cases has : a.seg with
+            | wild => left; simp [specLE, has, hps, Seg.rank]
+            | par n => left; simp [specLE, has, hps, Seg.rank]
+            | lit s' =>
+              rw [has, hs] at hacc
+              simp [segAccepts] at hacc
+              subst hacc
+              have hak : a.seg.key = Key.lit s := by rw [has]; rfl
+              have := hall (rest, ov) (mem_step.mpr ⟨a, hmem, hak⟩) hov hmr
+              exact spec_lift (by rw [hak, hpk]) this
+      · exact hfw _ hr
+    · rw [heq] at h ⊢
+      have hk : ∀ p : Part, p.seg.key = Key.par → trieStep p u := fun p hp => trieStep_par hp
+      have hnolit : ∀ (a : Part) (rest : List Part) (v : Option V) (s : String),
+          (a :: rest, v) ∈ res → a.seg = .lit s → u.seg ≠ .lit s := by
+        intro a rest v s hmem has hus
+        exact hnc s hus (hconst a rest v s hmem has hus)
+      rcases ih _ _ _ (path ++ [⟨u.host, .par n⟩]) (hwl.step _) (hal.step hk) h with ⟨q', hq', hm', hall⟩ | hr
+      · left
+        obtain ⟨p, hp, hpk⟩ := mem_step.mp hq'
+        obtain ⟨n', hps⟩ := key_eq_par hpk
+        refine ⟨p :: q', hp, by simp [matchesLax, matchesG, hps, segAccepts, hne2]; exact hm', ?_⟩
+        intro ⟨q, ov⟩ hmem hov hm
+        cases q with
+        | nil => simp [matchesLax, matchesG] at hm
+        | cons a rest =>
+          rcases matchesLax_cons_inv hm with ⟨haw, _⟩ | ⟨_, hacc, hmr⟩
+          · left; simp [specLE, haw, hps, Seg.rank]
+          · cases has : a.seg with
+            | wild => left; simp [specLE, has, hps, Seg.rank]
+            | lit s' =>
+              rw [has] at hacc
+              simp [segAccepts] at hacc
+              exact absurd hacc (hnolit a rest ov s' hmem has)
+            | par m =>
+              have hak : a.seg.key = Key.par := by rw [has]; rfl
+              have := hall (rest, ov) (mem_step.mpr ⟨a, hmem, hak⟩) hov hmr
+              exact spec_lift (by rw [hak, hpk]) this
+      · exact hfw _ hr
+    · rw [heq] at h ⊢
+      obtain ⟨f, hf, hst⟩ := stuck_match h
+      rw [hst]
+      exact hfw _ ⟨f, hf, rfl⟩
+
+theorem lookupParts_most_specific' (t : Tree V) (us : List Part)
+    (hwl : WildLast t) (hal : Aligned t us)
+    (h : (lookupParts t us).isMatch = true) :
+    ∃ q, (q, (lookupParts t us).value) ∈ t ∧ matchesLax q us = true ∧
+      ∀ e ∈ t, e.2 ≠ none → matchesLax e.1 us = true →
+        specLE e.1 q = true ∨ passedOver q e.1 = true := by
+  rcases lookGo_most_specific us t none [] [] hwl hal h with h | ⟨f, hf, _⟩
+  · exact h
+  · simp at hf
+
+/-- Same statement with the signature it had before the repair (`_hne` is no longer needed). -/
+theorem lookupParts_most_specific (t : Tree V) (us : List Part)
+    (hwl : WildLast t) (_hne : urlNonEmpty us = true) (hal : Aligned t us)
+    (h : (lookupParts t us).isMatch = true) :
+    ∃ q, (q, (lookupParts t us).value) ∈ t ∧ matchesLax q us = true ∧
+      ∀ e ∈ t, e.2 ≠ none → matchesLax e.1 us = true →
+        specLE e.1 q = true ∨ passedOver q e.1 = true := lookupParts_most_specific' t us hwl hal h
+
+
+section
+variable {R : Option V → Option V' → Prop} {res : Res V} {res' : Res V'}
+
+theorem Sim.wildNode (h : Sim R res res') (hp : PartsOK res) (hwl : WildLast res) (hc : RCoh res) :
+    (wildNode? res = none ∧ wildNode? res' = none) ∨
+    ∃ wv wv' f, wildNode? res = some (wv, f) ∧ wildNode? res' = some (wv', f) ∧ R wv wv' := by
+  cases hw : wildNode? res with
+  | none =>
+    cases hw' : wildNode? res' with
+    | none => exact .inl ⟨rfl, rfl⟩
+    | some wf' =>
+      obtain ⟨wv', f'⟩ := wf'
+      obtain ⟨p, rest, hm, hps, _⟩ := wildNode?_some hw'
+      obtain ⟨ov, hov, _⟩ := h.rl _ _ hm
+      exact absurd hps (wildNode?_none hw hov)
+  | some wf =>
+    obtain ⟨wv, f⟩ := wf
+    obtain ⟨p, rest, hm, hps, hpf⟩ := wildNode?_some hw
+    cases hw' : wildNode? res' with
+    | none =>
+      obtain ⟨ov', hov', _⟩ := h.lr _ _ hm
+      exact absurd hps (wildNode?_none hw' hov')
+    | some wf' =>
+      obtain ⟨wv', f'⟩ := wf'
+      right
+      obtain ⟨p', rest', hm', hps', hpf'⟩ := wildNode?_some hw'
+      obtain ⟨ov, hov, hr⟩ := h.rl _ _ hm'
+      have hpp := hp.head_eq hm hov (by rw [hps, hps'])
+      have h1 := wildLast_wild_head (hwl _ hm) hps
+      have h2 := wildLast_wild_head (hwl _ hov) hps'
+      subst h1; subst h2; subst hpp
+      have := hc _ hm _ hov rfl
+      simp only at this
+      subst this
+      exact ⟨_, _, f, rfl, by rw [← hpf, hpf'], hr⟩
+
+end
+
+/-- Two fallbacks correspond. -/
+def FwSim (R : Option V → Option V' → Prop) (fw : Option (Fallback V)) (fw' : Option (Fallback V')) : Prop :=
+  (fw = none ∧ fw' = none) ∨
+  ∃ f f', fw = some f ∧ fw' = some f' ∧ R f.value f'.value ∧ f.params = f'.params ∧ f.path = f'.path
+
+theorem stuck_sim {R : Option V → Option V' → Prop} (hR0 : R none none)
+    {fw : Option (Fallback V)} {fw' : Option (Fallback V')} (hfw : FwSim R fw fw') (u : Part) :
+    ResultSim R (stuck fw u) (stuck fw' u) := by
+  unfold stuck
+  split
+  · exact ⟨rfl, hR0, rfl, rfl⟩
+  · rcases hfw with ⟨h1, h2⟩ | ⟨f, f', h1, h2, hr, hp, hpa⟩
+    · subst h1; subst h2; exact ⟨rfl, hR0, rfl, rfl⟩
+    · subst h1; subst h2; exact ⟨rfl, hr, hp, hpa⟩
+
+/-- The lookup depends on the inserted patterns only as a SET, provided entries on one trie path are equal
+    (`PartsOK`, `RCoh`) — values may differ between the two sides as long as they are `R`-related. -/
+theorem lookGo_sim {R : Option V → Option V' → Prop} (hR0 : R none none)
+    (hRsome : ∀ ov ov', R ov ov' → (ov = none ↔ ov' = none)) (us : List Part) :
+    ∀ (res : Res V) (res' : Res V') (fw : Option (Fallback V)) (fw' : Option (Fallback V'))
+      (params : List (String × String)) (path : List Part),
+    Sim R res res' → PartsOK res → WildLast res → RCoh res → RCoh res' → FwSim R fw fw' →
+    ResultSim R (lookGo res fw params path us) (lookGo res' fw' params path us) := by
+  induction us with
+  | nil =>
+    intro res res' fw fw' params path hs hp hwl hc hc' hfw
+    unfold lookGo
+    cases hn : nodeValue res with
+    | some v =>
+      have hm := nodeValue_some hn
+      obtain ⟨ov', hov', hr⟩ := hs.lr _ _ hm
+      cases ov' with
+      | none => have := (hRsome _ _ hr).mpr rfl; simp at this
+      | some v' =>
+        rw [nodeValue_eq_of_mem hc' hov']
+        exact ⟨rfl, hr, rfl, rfl⟩
+    | none =>
+      cases hn' : nodeValue res' with
+      | some v' =>
+        have hm' := nodeValue_some hn'
+        obtain ⟨ov, hov, hr⟩ := hs.rl _ _ hm'
+        cases ov with
+        | none => have := (hRsome _ _ hr).mp rfl; simp at this
+        | some v => rw [nodeValue_eq_of_mem hc hov] at hn; simp at hn
+      | none =>
+        simp only
+        rcases hs.wildNode hp hwl hc with ⟨h1, h2⟩ | ⟨wv, wv', f, h1, h2, hr⟩
+        · rw [h1, h2]
+          simp only
+          rcases hfw with ⟨h1, h2⟩ | ⟨f, f', h1, h2, hr, hpp, hpa⟩
+          · subst h1; subst h2; exact ⟨rfl, hR0, rfl, rfl⟩
+          · subst h1; subst h2; exact ⟨rfl, hr, hpp, hpa⟩
+        · rw [h1, h2]
+          exact ⟨rfl, hr, rfl, rfl⟩
+  | cons u us ih =>
+    intro res res' fw fw' params path hs hp hwl hc hc' hfw
+    have hfwn : FwSim R (nextFw res fw params path u) (nextFw res' fw' params path u) := by
+      unfold nextFw
+      rcases hs.wildNode hp hwl hc with ⟨h1, h2⟩ | ⟨wv, wv', f, h1, h2, hr⟩
+      · rw [h1, h2]; exact hfw
+      · rw [h1, h2]
+        by_cases hf : f = u.host
+        · simp only [hf, if_true]
+          exact .inr ⟨_, _, rfl, rfl, hr, rfl, rfl⟩
+        · simp only [hf, if_false]; exact hfw
+    have hp' : PartsOK res' := by
+      intro e1 h1 e2 h2
+      obtain ⟨_, ho1, _⟩ := hs.rl _ _ h1
+      obtain ⟨_, ho2, _⟩ := hs.rl _ _ h2
+      exact hp _ ho1 _ ho2
+    have hcf : ∀ s, constFlag? res s = constFlag? res' s := hs.constFlag hp
+    have hpc : parChild? res = parChild? res' := hs.parChild hp
+    rcases lookGo_cons res fw params path u us with ⟨s, hsg, hcc, heq⟩ | ⟨hnc, ⟨n, hpcn, hne, heq⟩ | ⟨hnp, heq⟩⟩
+    · rcases lookGo_cons res' fw' params path u us with ⟨s', hsg', hcc', heq'⟩ | ⟨hnc', _⟩
+      · rw [hsg] at hsg'; simp at hsg'; subst hsg'
+        rw [heq, heq']
+        exact ih _ _ _ _ params (path ++ [u]) (hs.step _) (hp.step _) (hwl.step _) (hc.step hp _)
+          (hc'.step hp' _) hfwn
+      · exact absurd (by rw [← hcf s]; exact hcc) (hnc' s hsg)
+    · rcases lookGo_cons res' fw' params path u us with ⟨s', hsg', hcc', _⟩ | ⟨_, ⟨n', hpcn', _, heq'⟩ | ⟨hnp', _⟩⟩
+      · exact absurd (by rw [hcf s']; exact hcc') (hnc s' hsg')
+      · rw [hpc, hpcn'] at hpcn; simp at hpcn; subst hpcn
+        rw [heq, heq']
+        exact ih _ _ _ _ _ _ (hs.step _) (hp.step _) (hwl.step _) (hc.step hp _) (hc'.step hp' _) hfwn
+      · exact absurd (hnp' n (by rw [← hpc]; exact hpcn)) hne
+    · rcases lookGo_cons res' fw' params path u us with ⟨s', hsg', hcc', _⟩ | ⟨hnc', ⟨n', hpcn', hne', _⟩ | ⟨_, heq'⟩⟩
+      · exact absurd (by rw [hcf s']; exact hcc') (hnc s' hsg')
+      · exact absurd (hnp n' (by rw [hpc]; exact hpcn')) hne'
+      · rw [heq, heq']
+        exact stuck_sim hR0 hfwn u
+
+/-- Looking an inserted pattern up as if it were a URL finds that very pattern, provided no OTHER entry
+    (laxly) matches it and entries on one trie path are equal. -/
+theorem lookGo_self (rem : List Part) :
+    ∀ (res : Res V) (fw : Option (Fallback V)) (params : List (String × String)) (path : List Part) (j : V),
+    WildLast res → PartsOK res → RCoh res → (rem, some j) ∈ res →
+    (∀ e ∈ res, e.1 ≠ rem → matchesLax e.1 rem = false) →
+    (lookGo res fw params path rem).value = some j := by
+  induction rem with
+  | nil =>
+    intro res fw params path j _ _ hc hm _
+    unfold lookGo
+    rw [nodeValue_eq_of_mem hc hm]
+  | cons u rest ih =>
+    intro res fw params path j hwl hp hc hm hnc
+    have hstep : u.seg ≠ .wild → ∀ e ∈ step u.seg.key res, e.1 ≠ rest → matchesLax e.1 rest = false := by
+      intro hnw ⟨r', v'⟩ hm' hner
+      obtain ⟨p', hp', hk'⟩ := mem_step.mp hm'
+      have hpu : p' = u := hp.head_eq hp' hm hk'
+      subst hpu
+      have := hnc _ hp' (by simpa using hner)
+      cases hs : p'.seg with
+      | wild => exact absurd hs hnw
+      | lit s => simp [matchesLax, matchesG, hs, segAccepts] at this ⊢; exact this
+      | par n => simp [matchesLax, matchesG, hs, segAccepts] at this ⊢; exact this
+    have hmem' : (rest, some j) ∈ step u.seg.key res := mem_step.mpr ⟨u, hm, rfl⟩
+    rcases lookGo_cons res fw params path u rest with ⟨s, hs, hcf, heq⟩ | ⟨hncst, ⟨n, hpc, _, heq⟩ | ⟨hnp, heq⟩⟩
+    · rw [heq]
+      rw [hs] at hstep hmem'
+      exact ih _ _ _ _ j (hwl.step _) (hp.step _) (hc.step hp _) hmem' (hstep (by simp))
+    · -- parametric child entered
+      cases hs : u.seg with
+      | lit s =>
+        -- own literal child exists with the right flag: contradiction with "no constant branch"
+        exfalso
+        have hcf : constFlag? res s = some u.host := by
+          cases hcf : constFlag? res s with
+          | none => exact absurd hs (constFlag?_none hcf hm)
+          | some f =>
+            obtain ⟨p0, r0, v0, hm0, hp0, hf0⟩ := constFlag?_some hcf
+            have := hp.head_eq hm0 hm (by rw [hp0, hs])
+            rw [← hf0, this]
+        exact hncst s hs hcf
+      | par m =>
+        rw [heq]
+        rw [hs] at hstep hmem'
+        exact ih _ _ _ _ j (hwl.step _) (hp.step _) (hc.step hp _) hmem' (hstep (by simp))
+      | wild =>
+        -- diverted into the parameter child with nothing left: that node answers nothing, the fallback is us
+        have hrest : rest = [] := wildLast_wild_head (hwl _ hm) hs
+        subst hrest
+        rw [heq]
+        have hw : ∃ wv, wildNode? res = some (wv, u.host) ∧ wv = some j := by
+          cases hw : wildNode? res with
+          | none => exact absurd hs (wildNode?_none hw hm)
+          | some wf =>
+            obtain ⟨wv, f⟩ := wf
+            obtain ⟨p0, r0, hm0, hp0, hf0⟩ := wildNode?_some hw
+            have hpp := hp.head_eq hm0 hm (by rw [hp0, hs])
+            have hr0 := wildLast_wild_head (hwl _ hm0) hp0
+            subst hpp; subst hr0
+            have := hc _ hm0 _ hm rfl
+            simp only at this
+            exact ⟨wv, by rw [hf0], this⟩
+        obtain ⟨wv, hwn, hwv⟩ := hw
+        have hnf : nextFw res fw params path u = some ⟨some j, params, path ++ [⟨u.host, .wild⟩]⟩ := by
+          unfold nextFw; rw [hwn, hwv]; simp
+        rw [hnf]
+        have hnv : nodeValue (step Key.par res) = none := by
+          cases hnv : nodeValue (step Key.par res) with
+          | none => rfl
+          | some v =>
+            obtain ⟨p0, hm0, hk0⟩ := mem_step.mp (nodeValue_some hnv)
+            obtain ⟨m, hm'⟩ := key_eq_par hk0
+            have := hnc _ hm0 (by simp; intro h; rw [h, hs] at hm'; simp at hm')
+            simp [matchesLax, matchesG, hm', segAccepts, hs] at this
+        have hwc : wildNode? (step Key.par res) = none := by
+          cases hwc : wildNode? (step Key.par res) with
+          | none => rfl
+          | some wf =>
+            obtain ⟨wv', f'⟩ := wf
+            obtain ⟨w', r', hmw, hws, _⟩ := wildNode?_some hwc
+            have hr' := wildLast_wild_head ((hwl.step _) _ hmw) hws
+            subst hr'
+            obtain ⟨p0, hm0, hk0⟩ := mem_step.mp hmw
+            obtain ⟨m, hm'⟩ := key_eq_par hk0
+            have := hnc _ hm0 (by simp)
+            simp [matchesLax, matchesG, hm', segAccepts, hs, hws] at this
+        unfold lookGo
+        simp [hnv, hwc]
+    · -- stuck at this part: only possible for the pattern's own `*`
+      rw [heq]
+      cases hs : u.seg with
+      | lit s =>
+        exfalso
+        have hcf : constFlag? res s = some u.host := by
+          cases hcf : constFlag? res s with
+          | none => exact absurd hs (constFlag?_none hcf hm)
+          | some f =>
+            obtain ⟨p0, r0, v0, hm0, hp0, hf0⟩ := constFlag?_some hcf
+            have := hp.head_eq hm0 hm (by rw [hp0, hs])
+            rw [← hf0, this]
+        exact hncst s hs hcf
+      | par m =>
+        exfalso
+        have hpc : parChild? res = some (m, u.host) := by
+          cases hpc : parChild? res with
+          | none => have := parChild?_none hpc hm; simp [hs, Seg.isPar] at this
+          | some nf =>
+            obtain ⟨n0, f0⟩ := nf
+            obtain ⟨p0, r0, v0, hm0, hp0, hf0⟩ := parChild?_some hpc
+            have := hp.head_eq hm0 hm (by rw [hp0, hs]; rfl)
+            subst this
+            rw [hs] at hp0
+            simp only [Seg.par.injEq] at hp0
+            rw [← hf0, hp0]
+        have := hnp m hpc
+        rw [hs] at this; simp at this
+      | wild =>
+        have hrest : rest = [] := wildLast_wild_head (hwl _ hm) hs
+        subst hrest
+        have hw : ∃ wv, wildNode? res = some (wv, u.host) ∧ wv = some j := by
+          cases hw : wildNode? res with
+          | none => exact absurd hs (wildNode?_none hw hm)
+          | some wf =>
+            obtain ⟨wv, f⟩ := wf
+            obtain ⟨p0, r0, hm0, hp0, hf0⟩ := wildNode?_some hw
+            have hpp := hp.head_eq hm0 hm (by rw [hp0, hs])
+            have hr0 := wildLast_wild_head (hwl _ hm0) hp0
+            subst hpp; subst hr0
+            have := hc _ hm0 _ hm rfl
+            simp only at this
+            exact ⟨wv, by rw [hf0], this⟩
+        obtain ⟨wv, hwn, hwv⟩ := hw
+        have hnf : nextFw res fw params path u = some ⟨some j, params, path ++ [⟨u.host, .wild⟩]⟩ := by
+          unfold nextFw; rw [hwn, hwv]; simp
+        rw [hnf]
+        simp [stuck, hs, Seg.isPar]
 
 
 end LunarVerif.UrlTree
